@@ -310,6 +310,9 @@ class Interp:
         self.on_attr_store = None
         self.update_params_checks = []
         self.stmt_hook = None
+        self.index_checks = []     # (node, ok) subscripts whose index and axis both had a named space
+        self.sub_axes = {}         # axis name -> axis name it is a prefix of (e.g. L -> Lmax)
+        self.force_seeds = False
 
     # ---- events
     def event(self, kind, node, msg, **detail):
@@ -363,7 +366,7 @@ class Interp:
             seed = self.seeds.get(q)
             if seed:
                 for n, v in seed.items():
-                    if n in env and (is_top(env[n]) or getattr(self, "force_seeds", False)):
+                    if n in env and (is_top(env[n]) or self.force_seeds):
                         env[n] = v
             is_gen = any(isinstance(n, (ast.Yield, ast.YieldFrom)) for n in _walk_own(func))
             try:
@@ -1136,11 +1139,19 @@ class Interp:
             ax = axes[pos]
             if isinstance(p, ast.Slice):
                 full = p.lower is None and p.upper is None and p.step is None
+                upper_v = None
                 for q in (p.lower, p.upper, p.step):
                     if q is not None:
-                        self.eval(q, fr)
+                        v_ = self.eval(q, fr)
+                        if q is p.upper:
+                            upper_v = v_
                 if full:
                     out.append(ax)
+                elif p.lower is None and p.step is None and isinstance(upper_v, Num) and upper_v.dimof is not None \
+                        and upper_v.dimof.symbolic and (upper_v.dimof == ax or _compatible_space(upper_v.dimof, ax, self.sub_axes)):
+                    # x[:n] with n the size of a declared prefix axis
+                    self.usage(node, "prefix-slice", ax, "positional")
+                    out.append(upper_v.dimof)
                 else:
                     rev = p.lower is None and p.upper is None and p.step is not None
                     if not rev:
@@ -1194,6 +1205,11 @@ class Interp:
         if store:
             if isinstance(value, Arr):
                 self.broadcast(Arr(out), value, node, opname="store", inplace=True)
+            if base.elem == "i" and isinstance(value, (Num, Arr)) and value.space is not None:
+                if base.space is None:
+                    base.space = value.space
+                elif base.space != value.space:
+                    self.event("index-space", node, f"array of indices into {base.space} receives an index into {value.space}")
             return None
         if not out:
             return Num(base.elem, space=base.space)
@@ -1201,9 +1217,12 @@ class Interp:
 
     def check_index(self, idx, ax, node, base):
         sp = idx.space
-        if sp is not None and sp.symbolic and ax.symbolic and sp != ax and not _compatible_space(sp, ax):
-            self.event("index-space", node, f"axis {ax} of {base!r} subscripted by an index into axis {sp}",
-                       base=repr(base), index=repr(idx))
+        if sp is not None and sp.symbolic and ax.symbolic:
+            ok = sp == ax or _compatible_space(sp, ax, self.sub_axes)
+            self.index_checks.append((node, ok, self.stack[-1].qual if self.stack else "?"))
+            if not ok:
+                self.event("index-space", node, f"axis {ax} of {base!r} subscripted by an index into axis {sp}",
+                           base=repr(base), index=repr(idx))
 
     # ---- calls
     def eval_call(self, node, fr):
@@ -1414,14 +1433,23 @@ def _is_unit_slice(p):
         and isinstance(u.right, ast.Constant) and u.right.value == 1
 
 
-def _compatible_space(sp, ax):
-    """sub(N) / sel(N) indices still index N"""
+def _compatible_space(sp, ax, sub_axes=None):
+    """sub(N) / sel(N) indices still index N; an index into a declared prefix axis (L of Lmax) indexes the larger axis"""
     def root(a):
         n = a.name
         while isinstance(n, str) and (n.startswith("sub(") or n.startswith("sel(")) and n.endswith(")"):
             n = n[4:-1]
         return n
-    return root(sp) == root(ax)
+    a, b = root(sp), root(ax)
+    if a == b:
+        return True
+    seen = set()
+    while sub_axes and a in sub_axes and a not in seen:
+        seen.add(a)
+        a = sub_axes[a]
+        if a == b:
+            return True
+    return False
 
 
 def join_env(a, b, prefer_b=False):
